@@ -246,7 +246,8 @@ fn scenario(ctxrc: SharedCtx, report: Rc<RefCell<Report>>) {
         let mut ctx = ctxrc.borrow_mut();
         let mut cfg = ClientCfg::plain();
         cfg.nla = ctx.chance("nla", 1, 6);
-        let params = ServerParams::default_for(if cfg.nla { 2 } else { 1 });
+        let mut params = ServerParams::default_for(if cfg.nla { 2 } else { 1 });
+        params.tls12 = ctx.chance("tls12_server", 1, 3);
         let mut net = gen_benign_net(&mut ctx);
         net.eager = 0;
         let packing = match ctx.choose("packing", 4) { 0 => Packing::OnePerRecord, 1 => Packing::Coalesce, 2 => Packing::Split, _ => Packing::Mixed };
